@@ -2063,6 +2063,9 @@ Proof.
 Qed.
 
 (* ---- every command ---- *)
+Lemma startup_fact : startup_cleans = true.
+Proof. reflexivity. Qed.
+
 Definition is_shrink (c : cmd) : Prop := match c with CShrink _ => True | _ => False end.
 
 Lemma cmd_ok : forall ord s c t tr oc, ord_ok ord -> (is_shrink c -> shrunk_ok) -> J s ->
@@ -2080,8 +2083,8 @@ Proof.
   - eapply cmd_record; eauto.
   - eapply cmd_shrink; eauto. apply HSK. exact I.
   - eapply cmd_compact; eauto.
-  - eapply cmd_restart; eauto.
-  - eapply cmd_crash; eauto.
+  - rewrite startup_fact in H. eapply cmd_restart; eauto.
+  - rewrite startup_fact in H. eapply cmd_crash; eauto.
 Qed.
 
 Lemma J_init : J init.
